@@ -311,3 +311,38 @@ func checkCtorRejections(c *Ctx, p *Prog, rule string) {
 		c.R.Fail(rule, p.FnKey(ctor)+"#reject", p.Pos(ctor.Pos()), "UNRESOLVED-ANCHOR: the constructor has no error exits")
 	}
 }
+
+// checkSupervisorWaits (C02/X9, C07/E12): the supervising goroutine of v1 Simple (the entry that
+// starts the handlers and, through its defers, stops the inner discipline and cancels the handlers
+// when it returns) waits only for its own stop signal, the context, the graceful-stop request and
+// the inner discipline's termination (Err). A wait that can also end on anything else - a timer,
+// another channel - turns a graceful termination into a rough stop: items written before the
+// inputs were closed are never handled, while Err() reports a normal end.
+func checkSupervisorWaits(c *Ctx, p *Prog, rule string) {
+	d := p.Disc("priority.Simple")
+	if d == nil {
+		c.R.Fail(rule, p.Name+":priority.Simple", "-", "UNRESOLVED-ANCHOR: v1 Simple not found")
+		return
+	}
+	n := 0
+	for _, e := range d.Gos {
+		if e.Multi || e.Parent != nil {
+			continue
+		}
+		rt := p.Routine(d, e)
+		for _, fn := range rt.Funcs {
+			k := 0
+			for _, rs := range p.RecvSites(fn) {
+				n++
+				k++
+				role := p.stopRoleOf(rs.Chan)
+				ok := strings.HasPrefix(role, "stop:") || role == "graceful" || role == "call:Err"
+				c.R.Check(ok, rule, fmt.Sprintf("%s#wait.%d", p.FnKey(fn), k), rs.Pos(p), "waits for "+role,
+					"the supervising goroutine also stops waiting on "+role+": its return stops the inner discipline and cancels the handlers, so a graceful termination is cut short and items written before the inputs were closed are never handled")
+			}
+		}
+	}
+	if n == 0 {
+		c.R.Fail(rule, p.Name+":priority.Simple#waits", "-", "UNRESOLVED-ANCHOR: the supervising goroutine of v1 Simple has no wait")
+	}
+}
